@@ -562,20 +562,24 @@ func (c12Suite) Gen(rng *Rng, tier string, w *bufio.Writer, stats *Stats) {
 	kindsOnly := []string{
 		"addk 0 A", "addk 1 A", "addk 0 C", "addk 1 C", "delk 0 A", "delk 1 A", "delk 0 C", "delk 1 C,B", "merge 0 1", "merge 1 0",
 	}
+	mid := []string{
+		"set 0 a 2", "set 1 a 3", "set 0 a 0", "setall 1 a:1,c:5", "del 0 a", "del 1 a", "del 0 c", "clone 0 1",
+		"pmerge 0 1", "pmerge 1 0", "merge 0 1", "merge 1 0", "addk 0 C", "addk 1 A", "delk 0 A", "delk 1 C",
+	}
 	loads := []string{"a:1,b:2 A,B", "nil -", "- B"}
+	exhaustive("ex-full-3", loads, full, 3)
 	if tier == "thorough" {
-		exhaustive("ex-full-4", loads, full, 4)
-		exhaustive("ex-props-5", []string{"a:1,b:2 A", "nil -"}, propsOnly, 5)
-		exhaustive("ex-kinds-5", []string{"nil A,B", "- -"}, kindsOnly, 5)
+		exhaustive("ex-mid-4", []string{"a:1,b:2 A,B", "nil -"}, mid, 4)
+		exhaustive("ex-props-5", []string{"a:1,b:2 A"}, propsOnly, 5)
+		exhaustive("ex-kinds-5", []string{"nil A,B"}, kindsOnly, 5)
 	} else {
-		exhaustive("ex-full-3", loads, full, 3)
 		exhaustive("ex-props-4", []string{"a:1,b:2 A"}, propsOnly, 4)
 		exhaustive("ex-kinds-4", []string{"nil A,B"}, kindsOnly, 4)
 	}
 	// Random long histories over 4 keys / 3 kinds / 10 values, two entities.
 	n := 1500
 	if tier == "thorough" {
-		n = 60000
+		n = 30000
 	}
 	for i := 0; i < n; i++ {
 		var load string
